@@ -610,7 +610,13 @@ func c26(r *Run) {
 	if stp != nil {
 		okk := false
 		for _, h := range loopHeaders(stp) {
-			if ifi, ok := h.Instrs[len(h.Instrs)-1].(*ssa.If); ok && glob("phi(*) < p0.count", predString(ifi.Cond, true)) {
+			// exactly count iterations: counting up from 0 below count, or down from count while positive
+			ps := ""
+			if ifi, ok := h.Instrs[len(h.Instrs)-1].(*ssa.If); ok {
+				ps = predString(ifi.Cond, true)
+			}
+			if glob("phi(*) < p0.count", ps) && (strings.HasPrefix(ps, "phi(0, (1 + ↺))") || strings.HasPrefix(ps, "phi((1 + ↺), 0)")) ||
+				ps == "0 < phi(p0.count, (↺ - 1))" || ps == "0 < phi((↺ - 1), p0.count)" {
 				loop := naturalLoop(h)
 				for b := range loop {
 					for _, i := range b.Instrs {
@@ -642,7 +648,14 @@ func c26(r *Run) {
 	if pq != nil {
 		adds := findEffects(pq, "call (*sync.WaitGroup).Add(fv:w.sg, 1)")
 		sends := findEffects(pq, "send fv:w.tasks <- *")
-		okk := len(adds) == 1 && len(sends) == 1 && adds[0].Ins.Block() == sends[0].Ins.Block() && instrIndex(adds[0].Ins) < instrIndex(sends[0].Ins)
+		okk := len(adds) == 1 && len(sends) == 1
+		if okk {
+			ai, si := adds[0].Ins, sends[0].Ins
+			if ai == si && adds[0].Inner != nil && sends[0].Inner != nil {
+				ai, si = adds[0].Inner, sends[0].Inner // both inside one looked-through helper
+			}
+			okk = ai.Block() == si.Block() && instrIndex(ai) < instrIndex(si)
+		}
 		r.check(okk, "C26.R2", "processQueue:Add-before-handoff", w.rel(pq.Pos()), "sg.Add(1) immediately precedes each hand-off", "sg.Add(1) is not paired with each task hand-off")
 		if okk {
 			r.check(glob("send fv:w.tasks <- <-next(range(fv:w.queue))*.tasks*", sends[0].Str) || strings.Contains(sends[0].Str, ".tasks"), "C26.R2", "processQueue:every-task-of-the-job", r.at(w, sends[0].Ins), sends[0].Str, "the hand-off does not forward the job's tasks")
@@ -707,10 +720,7 @@ func c26(r *Run) {
 		okk := len(es) == 1
 		if okk {
 			okk = hasStr(es[0].Conds(), "fv:w.err == nil") || hasStr(es[0].Conds(), "nil == fv:w.err")
-			ls := locksets(wk, lockState{})
-			if rec := ls[es[0].Ins.Block()]; rec != nil {
-				okk = okk && rec[instrIndex(es[0].Ins)]["fv:w.lock"] == 2
-			}
+			okk = okk && heldAt(locksets(wk, lockState{}), es[0], "fv:w.lock") == 2
 		}
 		r.check(okk, "C26.R3", "startWorker$1:first-error-kept", w.rel(wk.Pos()), "w.err set only when nil, under the write lock", "the job error is not 'set only if nil, under the lock'")
 		// a task is skipped once an error is recorded
@@ -763,11 +773,9 @@ func c26(r *Run) {
 		cc := findEffects(pq, "call builtin.close(*.completed)")
 		okk := len(wt) == 1 && len(rs) == 1 && len(rst) == 1 && len(cc) == 1
 		if okk {
-			okk = dominatesI(wt[0].Ins, rs[0].Ins) && dominatesI(rs[0].Ins, rst[0].Ins) && dominatesI(wt[0].Ins, cc[0].Ins)
+			okk = effBefore(wt[0], rs[0]) && effBefore(rs[0], rst[0]) && effBefore(wt[0], cc[0])
 			ls := locksets(pq, lockState{})
-			if rec := ls[rst[0].Ins.Block()]; rec != nil {
-				okk = okk && rec[instrIndex(rst[0].Ins)]["fv:w.lock"] == 2 && rec[instrIndex(rs[0].Ins)]["fv:w.lock"] == 2
-			}
+			okk = okk && heldAt(ls, rst[0], "fv:w.lock") == 2 && heldAt(ls, rs[0], "fv:w.lock") == 2
 		}
 		r.check(okk, "C26.R3", "processQueue:wait-then-result-then-reset", w.rel(pq.Pos()), "sg.Wait -> close(completed), result <- err -> err = nil (under lock)", "the job result is not sent after all tasks finished and before the error is reset, under the lock")
 		sd := findEffects(pq, "send *.result <- internal/workers.ErrShutdown")
